@@ -25,8 +25,9 @@ import numpy as np
 
 from lib import core
 from props import c02_oracle as orc
+from props import c02_cse
 
-EXTRACTORS = []
+EXTRACTORS = ["Cse"]
 ANON = ".anonymous_ellipsis_axis"
 
 
@@ -815,6 +816,13 @@ FIXED = [
     ("solve_axes", "a 2", [[3, 2]], {}),
     ("solve_axes", "[a b]...", [[2, 3, 4, 5]], {}),
     ("matches", "(3...)", [[2]], {}),
+    # CSE: the recorded minimum of a replacement axis (min_value) and the product rule of _value_range matter here
+    ("matches", "c (a + b)", [[2, 1]], {}),
+    ("matches", "c (a + b), (a + b)", [[2, 1], [1]], {}),
+    ("matches", "((a + b) c d), ((a + b) c e)", [[1], [1]], {}),
+    ("matches", "((a + b) c d), ((a + b) c e)", [[4], [2]], {}),
+    ("matches", "((a + 2) (b + 3)), ((a + 2) (b + 3))", [[13], [13]], {}),
+    ("solve_shapes", "a (b c), (b c) d", [[2, 6], None], {"d": 5}),
 ]
 
 
@@ -964,9 +972,11 @@ def run(ctx):
                          "ellipsis and at least one known shape; distinct by (api, description, shapes, constraints)")
     ctx.assumptions.append("front-trusted: expression trees are einx's own stage-1 trees captured at the namedtensor.solve.solve boundary (parser and _parse_op rewriting are C12/C07's subject); "
                            "model and oracle both start from these trees")
-    ctx.assumptions.append("sympy is not modelled: the Lean model is the specification Sat/Sols plus the proved reference solver (unit propagation); CSE (stage2/cse.py) is not modelled, "
-                           "its effect is observed through solve_shapes/matches/ops against the oracle")
+    ctx.assumptions.append("sympy is not modelled: the Lean model is the specification Sat/Sols plus the proved reference solver (unit propagation); CSE (stage2/cse.py) is modelled at the "
+                           "value level (Solve/Cse.lean: valueRange = _value_range translated from the source on every run, cse_preserves_sols), its candidate search and tree surgery "
+                           "are C16's model (Order/Cse.lean); end to end its effect is observed through solve_shapes/matches/ops against the oracle")
     ctx.assumptions.append("the search oracle enumerates counts <= max(rank, 5) and lengths <= the largest stated dimension; uniqueness beyond these bounds is a search aid, not a proof")
+    directed = c02_cse.run_cse(ctx)   # before the budget is fixed: a broken CSE tie enlarges the search below
     checker = Checker(ctx)
     n_rand = 350 if ctx.quick else 6000
     n_big = 60 if ctx.quick else 600
@@ -991,6 +1001,8 @@ def run(ctx):
 
     for api, desc, shapes, params in FIXED:
         handle({"api": api, "desc": desc, "shapes": [None if s is None else list(s) for s in shapes], "params": dict(params)}, do_shrink=False)
+    for case in directed:
+        handle(case)
     for i in range(n_rand):
         case = gen_case(rng)
         res = handle(case)
